@@ -284,3 +284,17 @@ def class_member(cls: ast.ClassDef, name: str) -> ast.AST | None:
             if isinstance(node.target, ast.Name) and node.target.id == name:
                 found = node
     return found
+
+
+def string_constants(fn: ast.AST) -> list[str]:
+    """String literals used in fn: written in place, or through a module-level name bound once to a string literal."""
+    out: list[str] = []
+    for n in ast.walk(fn):
+        if isinstance(n, ast.Constant) and isinstance(n.value, str):
+            out.append(n.value)
+        elif isinstance(n, ast.Name) and isinstance(n.ctx, ast.Load):
+            module = getattr(n, '_module', None)
+            d = module.defs.get(n.id) if module is not None else None
+            if isinstance(d, (ast.Assign, ast.AnnAssign)) and isinstance(d.value, ast.Constant) and isinstance(d.value.value, str):
+                out.append(d.value.value)
+    return out
